@@ -166,7 +166,7 @@ def ens_validate_frame(I, env, res):
 def targets(tier):
     from . import staleness
 
-    return find_targets() + removed_targets() + is_fresh_targets() + staleness.targets(tier) + [
+    return find_targets() + removed_targets() + added_targets() + is_fresh_targets() + staleness.targets(tier) + [
         Target("fresh.validate_meta", "mypy.build:validate_meta", setup_validate,
                ensures=[("accepted-only-if-recorded-facts-hold", ens_validate), ("record-restamped-only-on-equal-hash", ens_validate_frame)],
                raises=(AssertionError,), overrides=dict(OVERRIDES, **{"contracts.fresh:FakeFsCache.hash_digest": hash_contract}), field_types=FT,
@@ -349,14 +349,12 @@ def ens_removed_iter(I, env, res):
                        r == -1)
     parent_is_dep = z3.Select(env["deps"].t, z3.SubString(dep, 0, r))
     cond_static = z3.And(z3.Contains(dep, dot), z3.Not(is_src), parent_is_dep)
+    # only the safety direction is required: answering True more often costs time, never correctness
     if returned_true:
-        if found is None:
-            return z3.BoolVal(False)
-        return z3.Implies(last_axiom, z3.And(cond_static, found[0].t == dep, isnone(found[1])))
-    # fell through: not (all conditions and missing)
+        return z3.BoolVal(True)
+    # fell through: then it must not be the case that a qualifying submodule is missing
     if found is not None:
-        # the finder is only asked about qualifying submodules, and this one was found
-        return z3.Implies(last_axiom, z3.And(cond_static, z3.Not(isnone(found[1]))))
+        return z3.Implies(z3.And(last_axiom, cond_static, found[0].t == dep), z3.Not(isnone(found[1])))
     return z3.Implies(last_axiom, z3.Not(cond_static))
 
 
@@ -367,7 +365,7 @@ def removed_targets():
     ft[("FakeSourceSet", "source_modules")] = TSet(TStr())
     ft[("BuildManager", "source_set")] = TObj(FakeSourceSet)
     return [Target("fresh.exist_removed_submodules.iteration", "mypy.build:exist_removed_submodules", setup_removed_iter, loop_body=("for dep in dependencies", None),
-                   ensures=[("stale-iff-submodule-of-a-dependency-went-missing", ens_removed_iter)], raises=(), overrides=ov, field_types=ft,
+                   ensures=[("stale-if-submodule-of-a-dependency-went-missing", ens_removed_iter)], raises=(), overrides=ov, field_types=ft,
                    note="one generic iteration; the module finder is an arbitrary function")]
 
 
@@ -408,3 +406,63 @@ def is_fresh_targets():
                ("Options", "fine_grained_incremental"): TBool()})
     return [Target("fresh.State.is_fresh", "mypy.build:State.is_fresh", setup_is_fresh, ensures=[("fresh-iff-recorded-dependencies-and-import-options-hold", ens_is_fresh)],
                    raises=(), overrides={"mypy.build:State.suppressed_deps_opts": sdo_contract}, field_types=ft)]
+
+
+# ------------------------------------------------------------------ exist_added_packages
+
+FOLLOW = TStr()
+
+
+def clone_contract(I, args, kwargs):
+    o = I.make(TObj(Options), "dep_options")
+    I.ctx.ghost["dep_options"] = o
+    return o
+
+
+def setup_added_iter(I):
+    dep = I.make(TStr(), "dep")
+    manager = I.make(TObj(B.BuildManager), "manager")
+    src = I.make(TObj(FakeSourceSet), "source_set")
+    manager.fields["source_set"] = src
+    return {"args": [], "locals": {"dep": dep, "manager": manager, "suppressed": I.make(TSeq(TStr()), "suppressed")}, "dep": dep, "src": src}
+
+
+BASENAME = z3.Function("os_path_basename", StrS, StrS)
+
+
+def ens_added_iter(I, env, res):
+    """one previously suppressed dependency: the importer is declared stale (True) whenever the
+    dependency is not a command-line source, can now be found, would actually be followed (follow_imports
+    is not skip / error for it, stubs excepted unless follow_imports_for_stubs) and what was found is a
+    package (__init__.py or __init__.pyi)"""
+    dep = env["dep"].t
+    is_src = z3.Select(I.getattr(env["src"], "source_modules").t, dep)
+    found = I.ctx.ghost.get("found")
+    returned_true = isinstance(res, SBool) and z3.is_true(simp(res.t))
+    # only the safety direction is required: declaring the importer stale more often costs time only
+    if found is None:
+        return z3.Or(z3.BoolVal(returned_true), is_src)
+    path = found[1]
+    have = z3.And(z3.Not(isnone(path)), z3.Length(term(path)) > 0)
+    o = I.ctx.ghost.get("dep_options")
+    if o is None:
+        return z3.Or(z3.BoolVal(returned_true), z3.Not(have))
+    fi = I.getattr(o, "follow_imports").t
+    skipped = z3.And(z3.Or(fi == z3.StringVal("skip"), fi == z3.StringVal("error")),
+                     z3.Or(z3.Not(z3.SuffixOf(z3.StringVal(".pyi"), term(path))), I.getattr(o, "follow_imports_for_stubs").t))
+    base = BASENAME(term(path))
+    is_pkg = z3.Or(base == z3.StringVal("__init__.py"), base == z3.StringVal("__init__.pyi"))
+    should = z3.And(z3.Not(is_src), have, z3.Not(skipped), is_pkg)
+    return z3.Implies(should, z3.BoolVal(returned_true))
+
+
+def added_targets():
+    ov = dict(OVERRIDES)
+    ov.update({"mypy.build:find_module_simple": find_module_simple_contract, "mypy.options:Options.clone_for_module": clone_contract,
+               "posixpath:basename": lambda I, a, k: SStr(BASENAME(term(a[0])))})
+    ft = dict(FT)
+    ft.update({("FakeSourceSet", "source_modules"): TSet(TStr()), ("BuildManager", "source_set"): TObj(FakeSourceSet),
+               ("Options", "follow_imports"): TStr(), ("Options", "follow_imports_for_stubs"): TBool()})
+    return [Target("fresh.exist_added_packages.iteration", "mypy.build:exist_added_packages", setup_added_iter, loop_body=("for dep in suppressed", None),
+                   ensures=[("stale-if-a-suppressed-dependency-became-a-followed-package", ens_added_iter)], raises=(), overrides=ov, field_types=ft,
+                   note="one generic suppressed dependency; the module finder and per-module options enter through contracts")]
